@@ -344,7 +344,7 @@ def c14_tier_b(tier, budget_s):
             with lock:
                 done[i] = (run, res)
                 v = tb.classify(run, res)
-                if v is not None and v[0] != "timeout":
+                if v is not None and v[0] not in ("timeout", "step-budget"):
                     state["stop"] = True
 
     ths = [threading.Thread(target=worker) for _ in range(JOBS)]
